@@ -34,6 +34,23 @@ def cases(ctx):
         yield "richcmp" + sfx, [19, a, b]
         yield "hash" + sfx, [3, a]
         yield "hash" + sfx, [3, nl.case_variant(rng, a)]
+    # pairs that differ only in WHERE a label boundary lies relative to a '.' (or another) octet:
+    # (a.b, c) vs (a, b.c), (a.b) vs (a, b), ...: equal as dotted strings, different as names
+    for it in range(ctx.n(250, 6000)):
+        a, b = boundary_shift_pair(rng)
+        if not (nl.fits(a) and nl.fits(b)):
+            continue
+        c = nl.case_variant(rng, a) if rng.random() < 0.5 else nl.related(rng, b)
+        if not nl.fits(c):
+            c = a
+        ctx.count("cmp:boundary-shift")
+        sfx = "" if it < ctx.n(250, 1500) else "-o"
+        yield "cmp" + sfx, [2, a, b]
+        yield "richcmp" + sfx, [19, a, b]
+        yield "richcmp" + sfx, [19, b, a]
+        yield "triple", [20, a, b, c]
+        yield "hash" + sfx, [3, b]
+        yield "namedict", [22, [a, b, nl.case_variant(rng, b)], [b"x"] + a]
     for _ in range(ctx.n(300, 2500)):
         a = nl.gen_labels(rng)
         ro = rng.random()
@@ -99,6 +116,45 @@ def pad255(ls, o):
     if room >= 2:
         pads.append(b"\xff" * (room - 1))
     return pads + ls + o
+
+
+def boundary_shift_pair(rng):
+    """two label lists whose octets, joined with the separator octet, are identical, but whose label
+    boundaries differ (a separator octet inside a label on one side is a boundary on the other)"""
+    sep = rng.choice([b".", b".", b".", b"\\.", b" ", b"\x00", b"@", b"-"])
+    k = rng.randint(2, 5)
+    parts = [bytes(rng.choice(b"abAB01z") for _ in range(rng.randint(1, 4))) for _ in range(k)]
+    if rng.random() < 0.2:
+        parts[rng.randrange(k)] = nl.gen_label(rng, 12)
+
+    def group(cuts):
+        out, cur = [], parts[0]
+        for i in range(1, k):
+            if i in cuts:
+                out.append(cur)
+                cur = parts[i]
+            else:
+                cur = cur + sep + parts[i]
+        out.append(cur)
+        return out
+
+    positions = list(range(1, k))
+    r = rng.random()
+    if r < 0.65 and k >= 3:
+        # same number of labels, boundaries at different separators
+        m = rng.randint(1, k - 2)
+        ca = set(rng.sample(positions, m))
+        cb = set(rng.sample(positions, m))
+        if ca == cb:
+            cb = set(positions[:m]) if ca != set(positions[:m]) else set(positions[-m:])
+    else:
+        ca = set(rng.sample(positions, rng.randint(0, k - 1)))
+        cb = set(rng.sample(positions, rng.randint(0, k - 1)))
+    a, b = group(ca), group(cb)
+    if rng.random() < 0.5:
+        b = nl.case_variant(rng, b)
+    tail = rng.choice([[], [b""], [b"example", b""], [b"Ex.ample", b""]])
+    return a + tail, b + tail
 
 
 def succ_sweep(ctx):
